@@ -15,9 +15,29 @@ SIG = {
 TEXT = b'lorem ipsum dolor sit amet, consectetur adipiscing elit sed do\n'
 
 
+VMDK_TEXT = (b'# Disk DescriptorFile\nversion=1\nCID=fffffffe\nparentCID=ffffffff\n'
+             b'createType="monolithicSparse"\n\n# Extent description\nRW 2048 SPARSE "disk.vmdk"\n')
+
+
 def build(c, rnd):
     n = c['n']
     bg = c['bg']
+    if c['zero'] == 'vmdk_text':
+        # the whole content is a text descriptor (padded with a comment), other signatures overlaid below
+        body = VMDK_TEXT + b'#' + b'x' * max(0, n)
+        data = bytearray(body[:n]) if n <= len(VMDK_TEXT) else bytearray((VMDK_TEXT + b'#' + b'x' * (n - len(VMDK_TEXT) - 2) + b'\n')[:n])
+        if c['fat']:
+            if n > 0x10:
+                data[0x10] = 2
+            if n > 0x15:
+                data[0x15] = 0xF8
+        for f in ('vdi', 'gpt', 'iso'):
+            if c[f]:
+                off, sg = SIG[f]
+                for k, b in enumerate(sg):
+                    if off + k < n:
+                        data[off + k] = b
+        return bytes(data)
     if bg == 'zero':
         data = bytearray(n)
     elif bg == 'random':
@@ -133,6 +153,9 @@ def _job(args):
             sizes.append(1)
         if deep:
             sizes.append(rnd.randint(1, max(1, n)))
+        if c['zero'] == 'vmdk_text':
+            # text-descriptor mode is only defined when the first read covers the descriptor (finding F1)
+            sizes = [s for s in (4096, 65536, 1 << 20) if s >= n] or [1 << 20]
         probs = []
         for sz in sizes:
             hist, names = decide_real(fi, data, sz, allowed)
@@ -154,7 +177,7 @@ def _job(args):
                 if h is not None:
                     seen = h
         det = None
-        if not c['allowed'] and idx % 3 == 0:
+        if not c['allowed'] and idx % 3 == 0 and not (c['zero'] == 'vmdk_text' and n > 4096):
             path = os.path.join(workdir, 'c03_%d.bin' % idx)
             with open(path, 'wb') as fh:
                 fh.write(data)
@@ -183,7 +206,7 @@ def run(ctx):
     res = tlc.run('MC_Detect', workdir=ctx.work, workers=1, stdout_path=os.path.join(ctx.work, 'detect.out'))
     ctx.tlc(res, 'Detect: Exclusive / MultiIsError / RawOnlyAlone / AllowedOnly / Total on every content')
     recs = res.records
-    if len(recs) < 20000:
+    if len(recs) < 20000 or not any(r['c']['zero'] == 'vmdk_text' and r['decide'] == 'vmdk' for r in recs):
         raise MachineryError('content export too small')
     rnd = random.Random(ctx.seed)
     items = list(enumerate(recs))
@@ -223,9 +246,18 @@ def run(ctx):
     rnd.shuffle(picks)
     for idx, rec in picks[:(1500 if quick else 12000)]:
         c = rec['c']
+        if c['zero'] == 'vmdk_text':
+            continue
         data = build(c, random.Random(ctx.seed * 65537 + idx))
         sz = rnd.choice([512, 4096, 65536]) if len(data) > 3000 else rnd.choice([17, 64, 512])
-        batch.append(record_signals(fi, data, sz, sorted(c['allowed']) or None))
+        tr = record_signals(fi, data, sz, sorted(c['allowed']) or None)
+        bad = [e for e in tr['ev'] if any(not isinstance(v, bool) for v in list(e['complete'].values()) + list(e['match'].values()))]
+        if bad:
+            ctx.violation({'kind': 'accessor-raised', 'what': sorted(set(str(v) for e in bad for v in list(e['complete'].values()) + list(e['match'].values()) if not isinstance(v, bool)))[:2]},
+                          {'content': c, 'read_size': sz, 'sample': bad[0]},
+                          'complete/format_match of an inspector raised while reading %s: %s' % (c, bad[0]['match']))
+            continue
+        batch.append(tr)
     for b in range(0, len(batch), 4000):
         part = batch[b:b + 4000]
         rejected, inv, r = traces.validate(ctx, 'Trace_Detect', part, 'd%d' % b)
